@@ -33,6 +33,8 @@ pub struct ModState {
   pub parked: HashMap<u64, oneshot::Sender<Value>>,
   pub inflight_now: i64,
   pub inflight_peak: i64,
+  // the next n calls of operations() fail ("mod": {"ops_fail": n}): the modulator is unreachable at that moment
+  pub ops_fail: u64,
 }
 
 #[derive(Clone)]
@@ -95,6 +97,13 @@ impl Modulator for ScriptMod {
   }
 
   async fn operations(&self) -> anyhow::Result<Operations> {
+    {
+      let mut st = self.st.lock().unwrap();
+      if st.ops_fail > 0 {
+        st.ops_fail -= 1;
+        return Err(anyhow::anyhow!("scripted modulator failure (operations)"));
+      }
+    }
     let v: Vec<StringAtom> = self.ops.iter().map(|s| StringAtom::from(s.as_str())).collect();
     Ok(Operations::from(v))
   }
@@ -301,6 +310,7 @@ async fn run_history(c: &Value) -> Value {
   let settle = cfgj.get("settle_ms").and_then(|v| v.as_u64()).unwrap_or(10);
 
   let mod_state = Arc::new(Mutex::new(ModState::default()));
+  mod_state.lock().unwrap().ops_fail = cfgj.get("mod").and_then(|m| m.get("ops_fail")).and_then(|v| v.as_u64()).unwrap_or(0);
   let (m2s_tx, _m2s_rx0) = broadcast::channel::<OutboundPrivatePayload>(1024);
   let scripted: Option<ScriptMod> = match cfgj.get("mod") {
     Some(m) if !m.is_null() => Some(ScriptMod {
